@@ -2,6 +2,7 @@
 import copy, random, itertools
 from fractions import Fraction
 import numpy as np
+import warnings
 import vlib
 from vlib import frac_str
 
@@ -30,6 +31,19 @@ def rand_coef(rng):
 
 def to_complex(c):
     return complex(float(c[0]), float(c[1])) if c[1] != 0 else float(c[0])
+
+
+def typed_scalar(c, zt):
+    """the same number (a multiple of 1/4, exactly representable everywhere) as one of the scalar types the operator
+    classes accept: python int / float / complex and numpy signed, unsigned, single- and double-precision scalars"""
+    re, im = c
+    if im != 0:
+        return [complex, np.complex128, np.complex64][zt % 3](complex(float(re), float(im)))
+    if re.denominator == 1:
+        v = int(re)
+        kinds = [int, float, np.int64, np.int32, np.float32, np.float64] + ([np.uint8, np.uint16, np.uint64] if v >= 0 else [np.int8])
+        return kinds[zt % len(kinds)](v)
+    return [float, np.float64, np.float32][zt % 3](float(re))
 
 
 def rand_terms(rng, kind, n=4, allow_empty=False):
@@ -154,13 +168,16 @@ def run_history(ctx, hist):
             elif k == "o_mul":
                 store[op["dst"]] = store[op["a"]] * store[op["b"]]
             elif k == "o_smul":
-                z = to_complex(op["z"])
+                z = typed_scalar(op["z"], op.get("zt", 0))
                 store[op["dst"]] = (z * store[op["a"]]) if op["left"] else (store[op["a"]] * z)
             elif k == "o_sadd":
-                z = to_complex(op["z"])
-                store[op["dst"]] = (z + store[op["a"]]) if op["left"] else (store[op["a"]] + z)
+                z = typed_scalar(op["z"], op.get("zt", 0))
+                if op.get("minus"):
+                    store[op["dst"]] = store[op["a"]] - z            # operator - scalar
+                else:
+                    store[op["dst"]] = (z + store[op["a"]]) if op["left"] else (store[op["a"]] + z)
             elif k == "o_rsub":
-                store[op["dst"]] = to_complex(op["z"]) - store[op["a"]]
+                store[op["dst"]] = typed_scalar(op["z"], op.get("zt", 0)) - store[op["a"]]
             elif k == "o_iadd":
                 x = store[op["a"]]; x += store[op["b"]]; store[op["a"]] = x
             elif k == "o_imul":
@@ -204,7 +221,9 @@ def run_history(ctx, hist):
                    "attrs": None if op["cls"] in ("offermion", "tqubit", "ofqubit") else
                    ([(-1 if x is None else x) for x in op["attrs"]] if op["cls"] == "tfermion" else [MAPS[op["attrs"][0]], -1 if op["attrs"][1] is None else int(op["attrs"][1])])}
         elif k in ("o_smul", "o_sadd", "o_rsub"):
-            req["z"] = [frac_str(op["z"][0]), 0, 0, 0, frac_str(op["z"][1]), 0, 0, 0]
+            sg = -1 if (k == "o_sadd" and op.get("minus")) else 1      # operator - z is operator + (-z) in the specification
+            req["z"] = [frac_str(sg * op["z"][0]), 0, 0, 0, frac_str(sg * op["z"][1]), 0, 0, 0]
+            req.pop("zt", None); req.pop("minus", None)
         elif k == "o_iadd":
             req = {"op": "o_add", "dst": op["a"], "a": op["a"], "b": op["b"], "inplace": True}
         elif k == "o_imul":
@@ -261,6 +280,9 @@ def rand_history(rng):
             op["b"] = b
         if k in ("o_smul", "o_sadd", "o_rsub"):
             op["z"] = rand_coef(rng); op["left"] = rng.random() < 0.5
+            op["zt"] = rng.randrange(12)
+            if k == "o_sadd" and rng.random() < 0.4:
+                op["minus"] = True
         if k not in ("o_iadd", "o_imul"):
             d = f"o{len(ids)}" if rng.random() < 0.8 else rng.choice(ids)
             op["dst"] = d
@@ -362,8 +384,58 @@ def collapse_case(ctx, rng, n_rows, n):
     return True
 
 
+SCALARS = [3, 0, -2, 0.75, 1.5 - 0.25j, 2j,
+           np.int8(-3), np.int32(3), np.int64(-2), np.uint8(3), np.uint16(2), np.uint32(1), np.uint64(3),
+           np.float32(0.75), np.float64(-1.25), np.complex64(1.25 - 0.5j), np.complex128(-0.5 + 2j), np.complex64(0.75j)]
+
+
+def scalar_table_case(ctx):
+    """every scalar form (a+z, z+a, a-z, z-a, a*z, z*a, a/z) with every scalar type the classes accept, on every operator
+    class: the result is the operator with the arithmetic done on its coefficients, the operand is left as it was"""
+    import openfermion as of
+    from tangelo.toolboxes.operators import FermionOperator, QubitOperator, QubitHamiltonian
+    mk = {"tfermion": lambda: FermionOperator(((2, 1), (0, 0)), 0.5 - 0.25j) + FermionOperator((), 1.5),
+          "offermion": lambda: of.FermionOperator(((2, 1), (0, 0)), 0.5 - 0.25j) + of.FermionOperator((), 1.5),
+          "tqubit": lambda: QubitOperator(((0, "X"), (2, "Z")), 0.5 - 0.25j) + QubitOperator((), 1.5),
+          "ofqubit": lambda: of.QubitOperator(((0, "X"), (2, "Z")), 0.5 - 0.25j) + of.QubitOperator((), 1.5),
+          "qham": lambda: QubitHamiltonian(((0, "X"), (2, "Z")), 0.5 - 0.25j, mapping="JW", up_then_down=False) + QubitHamiltonian((), 1.5, mapping="JW", up_then_down=False)}
+    for cls, make in mk.items():
+        for z in SCALARS:
+            zc = complex(z)
+            forms = {"a+z": (lambda a: a + z, lambda c, k: c + (zc if k == () else 0)), "z+a": (lambda a: z + a, lambda c, k: c + (zc if k == () else 0)),
+                     "a-z": (lambda a: a - z, lambda c, k: c - (zc if k == () else 0)), "z-a": (lambda a: z - a, lambda c, k: -c + (zc if k == () else 0)),
+                     "a*z": (lambda a: a * z, lambda c, k: c * zc), "z*a": (lambda a: z * a, lambda c, k: c * zc)}
+            if zc != 0:
+                forms["a/z"] = (lambda a: a / z, lambda c, k: c / zc)
+            for name, (f, g) in forms.items():
+                a = make()
+                before = dict(a.terms)
+                case = {"kind": "scalar_table", "cls": cls, "scalar": f"{type(z).__name__}({z})", "form": name}
+                ctx.count("scalar_form:" + name)
+                with warnings.catch_warnings():
+                    warnings.simplefilter("ignore")
+                    try:
+                        r = f(a)
+                    except Exception as e:
+                        ctx.violation(f"{cls}: {name} with z = {type(z).__name__}({z}) raises {type(e).__name__}: {str(e)[:80]}", case)
+                        return False
+                want = {k: g(complex(c), k) for k, c in before.items()}
+                got = {k: complex(c) for k, c in r.terms.items()}
+                keys = set(want) | set(got)
+                if any(abs(want.get(k, 0) - got.get(k, 0)) > 1e-6 for k in keys):
+                    ctx.violation(f"{cls}: {name} with z = {type(z).__name__}({z}) gives {got}, expected {want}", case)
+                    return False
+                if dict(a.terms) != before:
+                    ctx.violation(f"{cls}: {name} with z = {type(z).__name__}({z}) changed its operand", case)
+                    return False
+    ctx.case({"kind": "scalar_table"}, nontrivial=True, sample=True)
+    return True
+
+
 def run(ctx):
     rng = ctx.rng
+    if not scalar_table_case(ctx):
+        return
     for n_rows in [5, 40, 127, 128, 129, 200, 300] + ([] if ctx.quick else [600, 1000]):
         if not collapse_case(ctx, rng, n_rows, rng.randint(2, 5)):
             return
